@@ -94,6 +94,16 @@ def withGrid (u b l o g s : String) (k : G → String) : String :=
     | none => "reject"
     | some gr => k gr
 
+/-- mutation tokens: H:s3:p  C:xw:yw  O:[x,y,z]  B  R -/
+def parseMut? (t : String) : Option Mut :=
+  match t.splitOn ":" with
+  | ["H", a, b] => do let a ← parseRat? a; let b ← parseRat? b; some (.hexPitch a b)
+  | ["C", a, b] => do let a ← parseRat? a; let b ← parseRat? b; some (.cartPitch a b)
+  | ["O", o] => (parseRatList? o).map Mut.setOffset
+  | ["B"] => some .backUp
+  | ["R"] => some .restore
+  | _ => none
+
 def answer : List String → String
   | ["cartringpos", t, i, j] => match parseBool? t, parseInt? i, parseInt? j with
       | some t, some i, some j => showPair (cartRingPos t i j)
@@ -159,6 +169,18 @@ def answer : List String → String
       | _, _, _, _, _ => "bad-op"
   | ["trzringpos", i, j] => match parseInt? i, parseInt? j with
       | some i, some j => showPair (trzRingPos i j) ++ showPair (trzFromRingPos (trzRingPos i j).1 (trzRingPos i j).2)
+      | _, _ => "bad-op"
+  | "mutseq" :: u :: b :: l :: o :: g :: s :: idx :: muts =>
+      match parseIntList? idx, muts.mapM parseMut? with
+      | some ix, some ms => withGrid u b l o g s (fun gr =>
+          match applyMuts { g := gr, backups := [] } ms with
+          | none => "reject"
+          | some gs =>
+            showOpt showArgs (reduce gs.g) ++ " ; " ++ showOpt showRats (getCoordinates gs.g ix) ++ " ; " ++
+              showOpt showRats (getCellBase gs.g ix) ++ " ; " ++ showOpt showRats (getCellTop gs.g ix) ++ " ; " ++
+              (match (reduce gs.g).bind build with
+               | some g2 => if g2 == gs.g then "same" else "differs"
+               | none => "norebuild"))
       | _, _ => "bad-op"
   | "globalbase" :: rest => match parseLocs? rest with
       | some locs => if locs.isEmpty then "bad-op" else showOpt showRats (globalBase locs)
